@@ -158,7 +158,7 @@ def gen(rng, n, tier, pid):
     out = []
     for _ in range(n):
         shape = rng.choice(SHAPES)
-        size = rng.choice([0, 1, 2, 4, 8, 12, 20, 30, 45])
+        size = rng.choice([0, 1, 2, 4, 8, 12, 20, 30, 45] + ([70, 120] if tier == "thorough" else []))
         evs = gen_script(rng, shape, size)
         sels = gen_sels(rng, shape)
         docs = gen_docs(rng)
